@@ -216,6 +216,33 @@ Proof.
   - rewrite cev_kw_inv, cev_kw, H0. reflexivity.
 Qed.
 
+(* the NV conditional rotation |0><0| (x) R(theta) + |1><1| (x) R(-theta), for EVERY k *)
+Definition Ccrot (a : axis) (t : R) : list (list C) :=
+  match Crot a t, Crot a (- t) with
+  | [[a1; b1]; [c1; d1]], [[e1; f1]; [g1; h1]] =>
+      [[a1; b1; C0; C0]; [c1; d1; C0; C0]; [C0; C0; e1; f1]; [C0; C0; g1; h1]]
+  | _, _ => []
+  end.
+
+Lemma ang_compl : forall k,
+  cos (ang (64 - k mod 64)) = cos (- ang k) /\ sin (ang (64 - k mod 64)) = sin (- ang k).
+Proof.
+  intros k. assert (Hm : (k mod 64 <= 64)%nat) by (apply Nat.lt_le_incl, Nat.mod_upper_bound; lia).
+  destruct (trig_compl (k mod 64) Hm) as [Hc Hs]. destruct (trig_mod k) as [Hc' Hs'].
+  rewrite Hc, Hs, <- Hc', <- Hs', cos_neg, sin_neg. split; reflexivity.
+Qed.
+
+Theorem cmev_crot_k : forall a k, cmev (crot_k a k) = Ccrot a (ang k).
+Proof.
+  intros a k. destruct cev_hom as [H0 [_ [_ [_ [_ [Hm [Hn _]]]]]]].
+  destruct (ang_compl k) as [Ec Es].
+  unfold cmev, crot_k, rot_k, block_diag, Ccrot, Crot, kmi, k0. destruct a; cbn [map].
+  - rewrite !Hm, !Hn, !cev_ki, !cev_kcos, !cev_ksin, !H0, Ec, Es. reflexivity.
+  - rewrite !Hn, !cev_kcos, !cev_ksin, !H0, Ec, Es. reflexivity.
+  - rewrite (cev_kw_inv k), (cev_kw k), (cev_kw_inv (64 - k mod 64)), !H0, Ec, Es.
+    rewrite ?cos_neg, ?sin_neg, ?Ropp_involutive. reflexivity.
+Qed.
+
 (* complex images of the fixed gates *)
 Definition Ch : C := RtoC (1 / sqrt 2).
 Theorem cmev_fixed :
